@@ -183,6 +183,9 @@ func ForEco(name string) Scenario {
 		marked = append(marked, va+postM)
 	}
 	inputs = append(inputs, marked...)
+	// the same numbers with more components (padding the shorter side must not touch it)
+	longer := []string{vb + ".1", vb + ".0.1", vb + ".0.0.0.1"}
+	inputs = append(inputs, longer...)
 	for _, q := range quads {
 		inputs = append(inputs, q[0], q[1], q[2], q[3])
 	}
@@ -297,6 +300,12 @@ func ForEco(name string) Scenario {
 	for _, m := range marked {
 		ops = append(ops, cmp(va, m), cmp(m, va))
 	}
+	for _, l := range longer {
+		if _, err := eco.SafeParse(e, l); err == nil {
+			ops = append(ops, cmp(vb, l), cmp(l, vb))
+			break
+		}
+	}
 	if r5 != "" {
 		ops = append(ops, contains(r5, vb), contains(r5, va), contains(r5, vc))
 	}
@@ -332,6 +341,14 @@ func ForVers() Scenario {
 		call("vers:nope/>=1", "1"),
 		call("vers:golang/>=v1.0.0|<v2.0.0", "v1.0.1-0.20200101000000-abcdef123456"),
 		call("vers:rpm/>=1.0~rc1|<1.0", "1.0~rc2"),
+		// a call rejected at its LAST constraint, and valid ranges that share its first constraints
+		// (state left behind by the error path)
+		call("vers:npm/>=1.0.0|<not-a-version", "1.5.0"),
+		call("vers:npm/>=1.0.0|<2.0.0", "0.5.0"),
+		call("vers:npm/>=1.0.0|<=2.0.0", "0.5.0"),
+		call("vers:deb/>=1.0|<2.0|>=3.0|<", "1.5"),
+		call("vers:deb/>=1.0|<2.0|>=3.0|<4.0", "0.5"),
+		call("vers:deb/>=1.0|<2.0|>=3.0|<4.0", "2.5"),
 	}
 	return Scenario{Scope: "vers", Setup: func() *Shared { return &Shared{Scope: "vers"} }, Ops: ops}
 }
